@@ -150,11 +150,13 @@ class Ctx:
             for fn in self.program.all_functions():
                 cur.add(fn.name)
                 cur.update(fn.params)
+            cur |= set(self.program.classes)
             for c, tabc in self.ctab.attrs.items():
                 cur |= set(tabc)
             for mi in self.program.modules.values():
                 for n in ast.walk(mi.tree):
-                    if isinstance(n, ast.Attribute):
+                    # attributes this tree defines (stored somewhere), not every method name of the standard library it calls
+                    if isinstance(n, ast.Attribute) and isinstance(n.ctx, (ast.Store, ast.Del)):
                         cur.add(n.attr)
             self._cur_idents = cur
         if not ref:
